@@ -4391,6 +4391,16 @@ GRsetattr(int32 id, const char *name, int32 attr_nt, int32 count, const void *da
     else /* shouldn't get here, but what the heck... */
         HGOTO_ERROR(DFE_ARGS, FAIL);
 
+    /* an attribute cannot be stored in a file opened read-only */
+    {
+        char *file_name   = NULL;
+        int   file_access = 0;
+        int   file_attach = 0;
+        if (Hfidinquire(hdf_file_id, &file_name, &file_access, &file_attach) == FAIL ||
+            !(file_access & DFACC_WRITE))
+            HGOTO_ERROR(DFE_DENIED, FAIL);
+    }
+
     /* Search for an attribute with the same name */
     if ((t = (void **)tbbtfirst(search_tree->root)) != NULL) {
         do {
